@@ -104,6 +104,8 @@ func FaultTable() []FaultRow {
 	add("dead.Set", true, deadOp("Set", func(g *Gen, op *Op) bool { op.ID = g.anyUsed(); op.Val = g.val(); return true }))
 	add("dead.Get", true, deadOp("Get", func(g *Gen, op *Op) bool { op.ID = g.anyUsed(); return true }))
 	add("dead.Has", true, deadOp("Has", func(g *Gen, op *Op) bool { op.ID = g.anyUsed(); return true }))
+	add("dead.Mask", true, deadOp("MaskOf", nil))
+	add("dead.Ids", true, deadOp("MaskOf", func(g *Gen, op *Op) bool { op.Alt = true; return true }))
 	relFill := func(g *Gen, op *Op) bool {
 		r := g.relsUsed()
 		if len(r) == 0 {
@@ -170,6 +172,50 @@ func FaultTable() []FaultRow {
 		}
 		op := &Op{K: "BuilderAdd", E: entP(e), Add: []int{Pick(g.R, presentIn(me, g.used()))}}
 		if g.R.Chance(0.5) {
+			op.Vals = g.vals(1)
+		}
+		return op
+	})
+	// ---- a target handed to a Builder that was not told which component is its relation
+	norel := func(g *Gen) *Op {
+		ids := g.subsetAny(g.nonRels(), 1+g.R.Intn(3))
+		if rs := g.relsUsed(); len(rs) > 0 && g.R.Chance(0.5) {
+			ids = uniq(append(ids, Pick(g.R, rs)))
+		}
+		if len(ids) == 0 {
+			return nil
+		}
+		op := &Op{Add: ids, T: entP(g.pickTarget(ecs.Entity{}))}
+		if g.R.Chance(0.4) {
+			op.Vals = g.vals(len(ids))
+		}
+		return op
+	}
+	add("norel.BuilderNew", true, func(g *Gen) *Op {
+		op := norel(g)
+		if op != nil {
+			op.K = "BuilderNew"
+		}
+		return op
+	})
+	add("norel.NewBatch", true, func(g *Gen) *Op {
+		op := norel(g)
+		if op != nil {
+			op.K, op.N, op.Q = "NewBatch", 1+g.R.Intn(5), g.R.Chance(0.5)
+		}
+		return op
+	})
+	add("norel.BuilderAdd", true, func(g *Gen) *Op {
+		e, ok := g.pickAlive()
+		if !ok {
+			return nil
+		}
+		ab := absentIn(g, g.S.M.Alive[e], g.nonRels())
+		if len(ab) == 0 {
+			return nil
+		}
+		op := &Op{K: "BuilderAdd", E: entP(e), Add: []int{Pick(g.R, ab)}, T: entP(g.pickTarget(e))}
+		if g.R.Chance(0.4) {
 			op.Vals = g.vals(1)
 		}
 		return op
